@@ -838,8 +838,13 @@ def h_commit_file_ops(mode: str):
         w_in_manifest = z3.Bool("witness_file_in_manifest")
         cur = {}
 
+        from contracts.readpath import install_count_contracts, expectation_passed
+        install_count_contracts(h, g)
+
         def read_list(I, fv, args, kwargs):
-            g["list_reads"].append(pyops.str_z(args[-1]))
+            g["list_reads"].append(pyops.str_z(args[1]))
+            h.ensure("COUNT-CHECK:base-manifest-list-read-with-the-manifest-count-the-base-snapshot-records",
+                     expectation_passed(g, "manifests", cur_snap, kwargs, "expected_manifests"))
             if I.ctx.flip("list-read-fails"):
                 raise PyRaise(SExc("ValueError", origin="read_manifest_list_file fails", fields={"fault": True}))
 
@@ -853,7 +858,9 @@ def h_commit_file_ops(mode: str):
         h.reg.contracts[f"{FMOD}:FileManager.read_manifest_list_file"] = read_list
 
         def read_manifest(I, fv, args, kwargs):
-            g["man_reads"].append(pyops.str_z(args[-1]))
+            g["man_reads"].append(pyops.str_z(args[1]))
+            h.ensure("COUNT-CHECK:base-manifest-read-with-the-entry-count-its-list-entry-records",
+                     expectation_passed(g, "entries", cur.get("manifest"), kwargs, "expected_entries"))
             if I.ctx.flip("manifest-read-fails"):
                 raise PyRaise(SExc("OSError", origin="read_manifest_file fails", fields={"fault": True}))
 
@@ -969,6 +976,19 @@ def h_commit_file_ops(mode: str):
         if len(g["snap_calls"]) != 1:
             return
         kw = g["snap_calls"][0]
+        # COUNT-RECORD: the new snapshot records how many manifests its list holds (readers and GC check the list against it)
+        summ = kw.get("summary")
+        listed = g["list_writes"][0]["args"][0] if g["list_writes"] else None      # the very list handed to create_manifest_list_file
+        n_final = None
+        if isinstance(listed, TheoryObj) and listed.theory == "acc":
+            n_final = listed.fields.get("len_z")
+        elif isinstance(listed, TheoryObj) and listed.theory == "symiter":
+            n_final = listed.fields.get("len")
+        elif isinstance(listed, PList):
+            n_final = z3.IntVal(len(listed.items))
+        h.ensure("COUNT-RECORD:snapshot-summary-records-the-number-of-manifests-in-its-list",
+                 (isinstance(summ, PDict) and "manifest-count" in summ.d and n_final is not None and
+                  pyops.str_z(summ.d["manifest-count"]) == pyops.int_to_str_z(n_final)) if isinstance(summ, PDict) and n_final is not None else z3.BoolVal(False))
         h.ensure("DERIVE:snapshot-committed-against-the-SAME-base-object", kw.get("base_metadata") is base)
         h.ensure("DERIVE:parent=base.current(-1-if-none)",
                  pyops.bool_z(pyops.py_eq(kw.get("parent_snapshot_id"), base_cur)) if True else True,
